@@ -7,6 +7,8 @@
 (* are decided by the property-level trace specification NetworkTrace.                                                  *)
 EXTENDS MC_LraImpl, Json
 
+CONSTANT EmitFrom    \* 0: every transition is a test (exhaustive search); k: only histories of at least k steps and those that end
+                     \* in a conflict are (random walks over the model: tlc -simulate)
 VARIABLE ops
 
 SeqOfSet(S) == Asc(S)
@@ -32,7 +34,7 @@ GSpec == GInit /\ [][GNext]_<<vars, ops>>
 \* the tests are drawn per abstract state: bounds with reasons, truth values, undo layers, basis (values and row
 \* coefficients, which depend on the path, are not part of the identity of a test)
 GView == <<lb, ub, aval, layers, DOMAIN tab, lastOp[1]>>
-Emit == PrintT(<<"LRATEST", ToJson([ops |-> ops', nx |-> NX])>>)
+Emit == (Len(ops') >= EmitFrom \/ lastOp'[1] = "conflict") => PrintT(<<"LRATEST", ToJson([ops |-> ops', nx |-> NX])>>)
 Setup == PrintT(<<"LRASETUP", ToJson([rows |-> [k \in 1..NR |-> [z \in 1..NX |-> IF (z - 1) \in DOMAIN Rows[k] THEN Rows[k][z - 1] ELSE 0]],
                                        atoms |-> [i \in 1..NA |-> <<Atoms[i].x, Atoms[i].o, Atoms[i].v>>]])>>)
 ASSUME Setup
